@@ -526,9 +526,21 @@ func (c *FnCtx) call(ins ssa.Instruction, cc *ssa.CallCommon, val ssa.Value) {
 		}
 	}
 	if c.spec != nil {
-		for k, h := range c.spec.Hints[ci.name] {
+		// "before callee assert ..." applies at every call of callee; "before callee#k assert ..." only at its k-th call site
+		hs := append([]*Clause{}, c.spec.Hints[ci.name]...)
+		hs = append(hs, c.spec.Hints[fmt.Sprintf("%s#%d", ci.name, len(c.callRes[ci.name]))]...)
+		for k, h := range hs {
 			// a fact the contract asks to be established here (proved, then available as a lemma)
 			env := c.fnEnv(c.st, c.entry, false)
+			if blk := ins.Block(); blk != nil {
+				at := len(blk.Instrs)
+				for i, x := range blk.Instrs {
+					if x == ins {
+						at = i
+					}
+				}
+				env.lookup = c.localLookup(blk, at, nil)
+			}
 			ce := c.calleeEnv(ci, args, nil, c.st, c.entry)
 			for n, tv := range ce.vars {
 				// p0.. / recv denote the callee's arguments inside a hint
